@@ -37,9 +37,13 @@ CHECKS = {
               "exactly the matches of the source body (no spurious match; no new match lost). Solver witnesses are replayed "
               "through the real binary before being reported."),
         design_ref="DESIGN.md §2 C02, §3.2",
-        note=("Bounds: <= 3 rows per table, values in [0,4), arbitrary timestamps and subsume flags, keys unique. Trusted: the "
-              "~150-line stage semantics in lib/e2/model.py (cross-checked against the real executor on every generated program), "
-              "z3. Outside: executor internals, bodies beyond the enumeration, eq-sort constructors, containers, primitive filters."),
+        note=("Bounds: <= 3 rows per table, i64 values in [0,4), eq-sort ids in [0,16) under a union-free discipline (distinct "
+              "constructor rows have distinct ids), arbitrary timestamps and subsume flags, keys unique; bodies: relations, min-merge "
+              "functions, eq-sort constructors with nested terms, guards (<, !=) and computed values (+), heads that project. "
+              "Trusted: the stage semantics in lib/e2/model.py, z3 (cvc5 as second opinion in the thorough tier). Outside the solver "
+              "claim: executor internals, bodies beyond the enumeration, containers, databases with unioned constructor rows. "
+              "Supplement (not the deciding technique): every generated program is also executed (1 and 4 threads) and its tables "
+              "compared with the body's meaning; disagreements are reported as violations."),
         technique="SMT (z3) translation validation of the plans emitted by the real planner, over a symbolic database; witnesses replayed on the real binary",
     ),
     "C03": dict(
@@ -53,8 +57,10 @@ CHECKS = {
               "(last_run_at == previous next_ts) is checked on every trace. (E1) Kani decides that the timestamp range lookups "
               "turning `ts >= t` / `ts < t` into row ranges are exact."),
         design_ref="DESIGN.md §2 C03",
-        note=("Bounds as C02; histories <= 6 runs over 2 rulesets. Outside: re-timestamping of rebuilt / refreshed / container rows, "
-              "schedules beyond the enumerated ones, counter overflow."),
+        note=("Bounds as C02; histories <= 6 runs over 2 rulesets. Outside the solver claim: re-timestamping of rebuilt / refreshed / "
+              "container rows, schedules beyond the enumerated ones, counter overflow. Supplement (concrete, not the deciding "
+              "technique): the same histories with unions in them are executed with 1 and 4 threads and compared with the body's "
+              "meaning modulo congruence closure -- this is what sees rebuild re-timestamping; containers are not generated."),
         technique="SMT (z3) validation of the semi-naive variant sets and plans dumped from the real engine + Kani/CBMC on the timestamp range kernels",
     ),
     "C05": dict(
